@@ -12,6 +12,8 @@ Vocabulary (Model/C12.lean, specification section; Lemmas/C12.lean):
 * `StrictlyIncreasing out` - strictly increasing as `(region, core mask)` tuples;
 * `holds d t x y p` - the (chip, core) set a tree node stands for; `Inv d t` the tree invariant;
 * `InRange c`       - 0 <= x, y < 256 and 0 <= p < 18;
+* `buildTraceAt x0 y0 lv ts` - the insertion loop on `RegionCoreTree(x0, y0, lv)` with all return values;
+* `fullCores ts bs` - the cores for which some `add_core` of the run returned `True`;
 * `exactB`, `nodupB`, `strictB` - the executable oracle the driver runs on the implementation's
                       output (enumeration through `chipsOf`/`coresOf`/`expand`, sorted keys);
 * `wantsD tg x y p` - core `p` of chip `(x, y)` is requested by the dictionary `tg` as C09 carries it
@@ -21,6 +23,7 @@ Vocabulary (Model/C12.lean, specification section; Lemmas/C12.lean):
 -/
 import RigModel.Lemmas.C12
 import RigModel.Lemmas.C12Oracle
+import RigModel.Lemmas.C12Sub
 import RigModel.Model.C09
 set_option linter.unusedSimpArgs false
 set_option linter.unusedVariables false
@@ -111,6 +114,41 @@ theorem insert_all (ts : List (Int × Int × Int)) (hr : ∀ c, c ∈ ts → InR
 example : InRange (255, 0, 17) := by simp [InRange]
 example : ¬ InRange (256, 0, 1) := by simp [InRange]
 example : Inv 4 (RTree.new 0 0 0) := rootOK_new.1
+
+/-! ## a tree constructed directly (`RegionCoreTree(base_x, base_y, level)`, any level) -/
+
+/-- **Any node, any insertion sequence.** On a freshly constructed node of level 0..3 placed on its
+grid inside the 256 x 256 space, any sequence of `add_core` calls with chips of its square and cores
+< 18 succeeds; the node keeps the invariant; the root never returns `True`; the set the node stands
+for, together with its whole square for every core for which some call returned `True`
+(`fullCores`: the node hands these to its parent and clears them), is exactly the set of inserted
+cores; and the pairs the node yields select, each exactly once, what the node stands for. -/
+theorem subtree_insert (x0 y0 lv : Nat) (hl : lv ≤ 3) (hx : x0 % scale lv = 0) (hy : y0 % scale lv = 0)
+    (hx1 : x0 + scale lv ≤ 256) (hy1 : y0 + scale lv ≤ 256) (ts : List (Int × Int × Int))
+    (hr : ∀ c, c ∈ ts → InRange c ∧ inSq x0 y0 lv c.1.toNat c.2.1.toNat) :
+    ∃ t bs, buildTraceAt x0 y0 lv ts = .ok (t, bs) ∧ bs.length = ts.length ∧ Inv (4 - lv) t ∧
+      (lv = 0 → ∀ b, b ∈ bs → b = false) ∧
+      (∀ x y p, (holds (4 - lv) t x y p ∨ (p ∈ fullCores ts bs ∧ inSq x0 y0 lv x y)) ↔
+        (x, y, p) ∈ ts.map toNat3) ∧
+      ∀ x y p, (holds (4 - lv) t x y p → countSel (emit (4 - lv) t) x y p = 1) ∧
+        (¬ holds (4 - lv) t x y p → countSel (emit (4 - lv) t) x y p = 0) := by
+  have hd : 4 - lv = (3 - lv) + 1 := by omega
+  have hI0 : Inv (4 - lv) (RTree.new x0 y0 lv) := by
+    rw [hd]; exact Inv_new (3 - lv) x0 y0 lv (by omega) hx hy hx1 hy1
+  obtain ⟨t, bs, e, hlen, hI, _, _, _, h0, hh⟩ :=
+    trace_spec (4 - lv) x0 y0 lv ts (RTree.new x0 y0 lv) [] hI0 rfl rfl rfl hr
+  refine ⟨t, bs, ?_, hlen, hI, h0, ?_, emit_count (4 - lv) t hI⟩
+  · rw [buildTraceAt_eq, e, List.nil_append]
+  · intro x y p
+    rw [hh]
+    constructor
+    · rintro (h | h)
+      · exact absurd h (holds_new _ _ _ _ _ _ _)
+      · exact h
+    · intro h; exact Or.inr h
+
+example : InRange (7, 9, 17) ∧ inSq 4 8 3 (7 : Int).toNat (9 : Int).toNat := by
+  simp [InRange, inSq, scale]
 
 /-! ## `compress_flood_fill_regions` -/
 
